@@ -731,6 +731,8 @@ def run(ctx):
     c05.r7_placement_flags(ctx, prog, rule_id='C06.R2c')
     r7_default_privacy(ctx, prog)
     r8_reload(ctx, prog)
+    from rules import c08
+    c08.r1_engine(ctx, prog, rule_id='C06.R9')
 
 
 MUTANTS = [
